@@ -12,7 +12,7 @@ def run(tier, replay):
     return _c15.explore("C16", tier, replay)
 
 
-CLAIMED = False
+CLAIMED = True
 MANIFEST = dict(
     level="model_checking",
     engine="seqx (explicit-state BFS with state merging on the real FSM)",
